@@ -8,6 +8,7 @@ CONSTANTS
  GenLen = 34
  Crashes = FALSE
  FaultAfter = 18
+ StopFrom = 2
  GenCfgs = "all"
 INVARIANTS Emit
 CHECK_DEADLOCK FALSE
